@@ -179,6 +179,89 @@ def rfc_mpint(n):
             k += 1
 
 
+def _rfc_sig_hash(alg):
+    """hash each host key algorithm signs with: RFC 4253 6.6, RFC 8332 3, RFC 5656 6.2.1 (None: Ed25519, RFC 8709)"""
+    from cryptography.hazmat.primitives import hashes
+    return {"ssh-rsa": hashes.SHA1, "rsa-sha2-256": hashes.SHA256, "rsa-sha2-512": hashes.SHA512,
+            "ecdsa-sha2-nistp256": hashes.SHA256, "ecdsa-sha2-nistp384": hashes.SHA384,
+            "ecdsa-sha2-nistp521": hashes.SHA512, "ssh-ed25519": None}[alg]
+
+
+def _fields(blob):
+    out, pos = [], 0
+    while pos + 4 <= len(blob):
+        n = struct.unpack(">I", blob[pos:pos + 4])[0]
+        out.append(blob[pos + 4:pos + 4 + n])
+        pos += 4 + n
+    return out
+
+
+def independent_verify(alg, ks, sig, data):
+    """Does `sig` (SSH signature blob) verify over `data` under the key blob `ks` for host key algorithm `alg`,
+    per the RFCs, using the `cryptography` primitives directly -- no paramiko key class involved."""
+    from cryptography.exceptions import InvalidSignature
+    from cryptography.hazmat.primitives.asymmetric import ec, padding, rsa, ed25519
+    from cryptography.hazmat.primitives.asymmetric.utils import encode_dss_signature
+    try:
+        kf, sf = _fields(ks), _fields(sig)
+        if len(sf) != 2 or sf[0] != alg.encode():
+            return False
+        h = _rfc_sig_hash(alg)
+        if alg in ("ssh-rsa", "rsa-sha2-256", "rsa-sha2-512"):
+            if kf[0] != b"ssh-rsa":
+                return False
+            e, n = int.from_bytes(kf[1], "big"), int.from_bytes(kf[2], "big")
+            pub = rsa.RSAPublicNumbers(e, n).public_key()
+            size = (n.bit_length() + 7) // 8
+            if len(sf[1]) > size:
+                return False
+            pub.verify(sf[1].rjust(size, b"\x00"), data, padding.PKCS1v15(), h())
+            return True
+        if alg.startswith("ecdsa-sha2-"):
+            curve = {"nistp256": ec.SECP256R1(), "nistp384": ec.SECP384R1(), "nistp521": ec.SECP521R1()}[alg[11:]]
+            if kf[0] != alg.encode() or kf[1] != alg[11:].encode():
+                return False
+            pub = ec.EllipticCurvePublicKey.from_encoded_point(curve, kf[2])
+            rs = _fields(sf[1])
+            if len(rs) != 2:
+                return False
+            r, s_ = int.from_bytes(rs[0], "big", signed=True), int.from_bytes(rs[1], "big", signed=True)
+            pub.verify(encode_dss_signature(r, s_), data, ec.ECDSA(h()))
+            return True
+        if alg == "ssh-ed25519":
+            if kf[0] != b"ssh-ed25519":
+                return False
+            ed25519.Ed25519PublicKey.from_public_bytes(kf[1]).verify(sf[1], data)
+            return True
+    except (InvalidSignature, ValueError, IndexError, KeyError, struct.error):
+        return False
+    return False
+
+
+def independent_sign(alg, key, data):
+    """An RFC-conforming signature blob over `data` made with the private numbers of `key`, without paramiko's
+    signing code (what a non-paramiko server holding this key would send)."""
+    from cryptography.hazmat.primitives.asymmetric import ec, padding
+    from cryptography.hazmat.primitives.asymmetric.utils import decode_dss_signature
+    h = _rfc_sig_hash(alg)
+    if alg in ("ssh-rsa", "rsa-sha2-256", "rsa-sha2-512"):
+        raw = key.key.sign(data, padding.PKCS1v15(), h())
+    elif alg.startswith("ecdsa-"):
+        r, s_ = decode_dss_signature(key.signing_key.sign(data, ec.ECDSA(h())))
+        raw = rfc_mpint(r) + rfc_mpint(s_)
+    else:
+        raw = bytes(key._signing_key.sign(data).signature)
+    return rfc_string(alg.encode()) + rfc_string(raw)
+
+
+def check_accepted_sig(ctx, where, name, alg, ks, sig, H, case):
+    if not independent_verify(alg, ks, sig, H):
+        ctx.fail("accepted-signature-not-valid:" + alg,
+                 "%s: the client accepted a host key signature that is NOT a valid %s signature over H under the host key "
+                 "shown (verified with the cryptography primitives per RFC 4253 6.6 / 8332 / 5656 6.2.1 / 8709)" % (where, alg),
+                 case=case, expected="valid %s signature over H" % alg, observed={"sig": sig, "H": H})
+
+
 def rfc_kdf(hashf, K, H, X, sid, n):
     """RFC 4253 section 7.2 key derivation with an explicit session identifier."""
     kb = rfc_mpint(K)
@@ -261,13 +344,20 @@ FAULTS = ["hostkey-swap", "hostkey-other-type", "hostkey-bitflip", "pub-changed"
           "sig-inner-prepend", "sig-inner-append", "sig-blob-append", "hostkey-append", "hostkey-field-pad",
           # another ENCODING of the same value: compressed EC point, X25519 u with the ignored top bit set, mpint f
           # with a redundant leading zero; algorithm / key type names in another letter case; ECDSA r re-encoded
-          "pub-reencoded", "sig-alg-case", "hostkey-name-case", "sig-mpint-pad"]
+          "pub-reencoded", "sig-alg-case", "hostkey-name-case", "sig-mpint-pad",
+          # not a corruption: the signature a conforming non-paramiko server would send (made with the cryptography
+          # primitives and the RFC hash for the algorithm) -- the client MUST accept it
+          "sig-independent"]
 
 
 def value_level(fault, fam):
     """Faults that re-encode an INTEGER the protocol hashes / verifies by value (mpint f of the DH families, ECDSA
     r): the client may accept them, but then both peers must still hold the same K and H."""
-    return fault == "sig-mpint-pad" or (fault == "pub-reencoded" and fam in (0, 1))
+    return fault in ("sig-mpint-pad", "sig-independent") or (fault == "pub-reencoded" and fam in (0, 1))
+
+
+def must_accept(fault):
+    return fault == "sig-independent"
 
 
 def fault_applies(fault, alg):
@@ -400,6 +490,10 @@ def tamper(fault, fam, cls, payload, alg, keys, get_H, rng):
         sig = swapcase_first_field(sig)
     elif fault == "hostkey-name-case":
         ks = swapcase_first_field(ks)
+    elif fault == "sig-independent":
+        sig = independent_sign(alg, key, get_H())
+        if alg.startswith("rsa") or alg in ("ssh-rsa", "ssh-ed25519"):
+            sig = sig + b""      # deterministic schemes give the very same bytes; still a meaningful acceptance test
     elif fault == "sig-mpint-pad":
         if alg.startswith("ecdsa-"):
             a, inner, rest = split3(sig)
@@ -512,7 +606,7 @@ def direct_exchange(name, cls, fam, alg, keys, rng, fault=None, old_style=False,
         out["activated_before"] = tc.calls.count("activate")
         if fault is not None and last:
             reply = reply[:1] + tamper(fault, fam, cls, reply[1:], alg, keys, lambda: ts.H, rng)
-            out["fault_applied"] = reply != ts.sent[-1]
+            out["fault_applied"] = reply != ts.sent[-1] or must_accept(fault)
         try:
             deliver(kc, reply)
         except Exception as e:   # noqa: the client's reaction is the observable
@@ -579,6 +673,12 @@ def check_abort(ctx, where, name, fault, aborted, activated, exc, case):
 
 def check_tampered(ctx, where, name, fam, fault, aborted, activated, exc, case, hk_client, hk_server):
     """hk_* = (K, H) each side holds for the tampered exchange (None when it did not get that far)."""
+    if must_accept(fault) and aborted:
+        ctx.fail("conforming-signature-rejected:" + (case.get("hostkey") or ""),
+                 "%s: the client rejected an RFC-conforming %s signature over H made by the host key's owner with the "
+                 "cryptography primitives (what a non-paramiko server sends): %r" % (where, case.get("hostkey"), exc),
+                 case=case, expected="accepted", observed=repr(exc))
+        return
     if value_level(fault, fam) and not aborted:
         if hk_client is None or hk_client != hk_server:
             ctx.fail("reencoded-value-diverges:" + fault,
@@ -620,6 +720,9 @@ def run_direct(ctx, keys, model_cases, dh_cases):
                              hk.asbytes() if hk is not None else None, case, model_cases)
                 if "activate" not in o["client"].calls or o["client"].calls.index("verify") > o["client"].calls.index("activate"):
                     ctx.fail("verify-after-activate:" + name, "client activates outbound keys before verifying", case=case)
+                va = o["client"].verify_args
+                if va is not None:
+                    check_accepted_sig(ctx, "direct drive", name, alg, bytes(va[0]), bytes(va[1]), o["client"].H, case)
                 if fam in (0, 1):
                     p, g = (cls.P, cls.G) if fam == 0 else (o["ks"].p, o["ks"].g)
                     x, y = o["kc"].x, o["ks"].x
@@ -658,6 +761,9 @@ def run_direct(ctx, keys, model_cases, dh_cases):
             check_tampered(ctx, "direct drive", name, fam, fault, o["exc"] is not None,
                            o["activated_after"] > o["activated_before"], o["exc"], case,
                            (o["client"].K, o["client"].H), (o["server"].K, o["server"].H))
+            va = o["client"].verify_args
+            if o["exc"] is None and va is not None:
+                check_accepted_sig(ctx, "direct drive", name, alg, bytes(va[0]), bytes(va[1]), o["client"].H, case)
     return n
 
 
@@ -686,6 +792,7 @@ def rec_transport_class():
             try:
                 super()._verify_key(host_key, sig)
                 r["verify"].append("ok")
+                r.setdefault("verified", []).append((self.host_key_type, bytes(host_key), bytes(sig), self.H))
             except Exception as e:
                 r["verify"].append(type(e).__name__)
                 raise
@@ -709,7 +816,7 @@ def rec_transport_class():
     return RecTransport
 
 
-def tamper_packetizer(ptype_target, alter, nth=1):
+def tamper_packetizer(ptype_target, alter, nth=1, force=False):
     from paramiko.packet import Packetizer
     from paramiko.message import Message
 
@@ -723,7 +830,7 @@ def tamper_packetizer(ptype_target, alter, nth=1):
             if ptype == ptype_target and self._c06_seen == nth:
                 raw = m.asbytes()
                 new = alter(raw)
-                self._c06_changed = new != raw
+                self._c06_changed = new != raw or force
                 m2 = Message(new)
                 m2.seqno = m.seqno
                 return ptype, m2
@@ -767,7 +874,7 @@ def loopback(name, cls, fam, alg, keys, rng, rekeys=0, fault=None, fault_at=1, b
     if fault is not None:
         def alter(raw):
             return tamper(fault, fam, cls, raw, alg, keys, lambda: ts.H, rng)
-        kw["packetizer_class"] = tamper_packetizer(33 if fam == 1 else 31, alter, fault_at)
+        kw["packetizer_class"] = tamper_packetizer(33 if fam == 1 else 31, alter, fault_at, must_accept(fault))
         rekeys = fault_at - 1
     tc = RT(a, **kw)
     out = {"exc": None, "rekey_exc": None, "pre_exc": None}
@@ -847,9 +954,16 @@ def check_versions(ctx, o, case):
 BANNER_CASES = []
 
 
+def check_verified(ctx, c, name, case):
+    """every signature the real client's _verify_key accepted must verify independently"""
+    for alg, ks, sig, H in c.get("verified", []):
+        check_accepted_sig(ctx, "handshake", name, alg, ks, sig, H, case)
+
+
 def check_loop_honest(ctx, name, cls, fam, alg, rekeys, o, case, model_cases, latch_cases):
     c, s = o["client"], o["server"]
     check_versions(ctx, o, case)
+    check_verified(ctx, c, name, case)
     for me, peer in ((c, s), (s, c)):
         if me["remote_version"] is not None and len(BANNER_CASES) < (300 if ctx.thorough else 24):
             BANNER_CASES.append((coq(list(peer["wire_line"])), list(asb(me["remote_version"])), case))
@@ -982,6 +1096,7 @@ def run_loopback(ctx, keys, model_cases, latch_cases):
             continue
         c = o["client"]
         sv = o["server"]
+        check_verified(ctx, c, nm, case)
         hkc = (c["kex"][at - 1]["K"], c["kex"][at - 1]["H"]) if len(c["kex"]) >= at else None
         hks = (sv["kex"][at - 1]["K"], sv["kex"][at - 1]["H"]) if len(sv["kex"]) >= at else None
         check_tampered(ctx, "handshake", nm, fam, fault, o["exc"] is not None and not c["active"],
@@ -1153,7 +1268,9 @@ def run(ctx):
                 "signature blob or the key blob, a key field zero-padded; the SAME value in another encoding: Q_S as a "
                 "compressed EC point, X25519 u with the ignored top bit set, mpint f / ECDSA r with a redundant leading zero "
                 "(integers hashed by value: acceptance allowed only with equal K and H on both peers), algorithm / key type "
-                "names in another letter case; every fault x every host key algorithm) -- on the initial exchange or on the 2nd / 3rd exchange (re-key) of the same transports; (d) "
+                "names in another letter case; plus the RFC-conforming signature a non-paramiko server would send (made with "
+                "the cryptography primitives), which must be ACCEPTED; every signature a client accepts is re-verified with "
+                "the cryptography primitives and the RFC hash of the negotiated algorithm, no paramiko key class involved; every fault x every host key algorithm) -- on the initial exchange or on the 2nd / 3rd exchange (re-key) of the same transports; (d) "
                 "Transport.connect(hostkey=pinned, password | pkey) towards a server holding the pinned key / the same key "
                 "re-loaded / another key of the same type / a key of another type, per host key type: a differing key must "
                 "raise before the server sees any authentication request.  "
